@@ -37,6 +37,8 @@ THEOREMS = [
     "MCHap.C01.dosagePairs_sound",
     "MCHap.C01.dosagePairs_injective",
     "MCHap.C01.recombPairs_sound",
+    "MCHap.C01.base_step_literal_db",
+    "MCHap.C01.baseStepOptions_length",
     "MCHap.C01.kernelMass_dosage",
     "MCHap.C01.kernelMass_recomb",
     "MCHap.C01.dosage_step_kernel_db",
